@@ -27,11 +27,12 @@ Theorem C01_model_rejects_shadowing_default :
 Proof. exact refuted_F01c. Qed.
 Print Assumptions C01_model_rejects_shadowing_default.
 
-Theorem C01_refuted_F06d :
+(* F06d is fixed (133c12b); model fact: `from X import a` fails when X never binds a and X.a is not a module *)
+Theorem C01_model_rejects_unbound_import :
   c_static builtin_names w_F06d = false /\ c_closed w_F06d = true /\ c_acyclic w_F06d = true /\
   failed_with (ex w_F06d [n_p; n_ep]) EImport.
 Proof. exact refuted_F06d. Qed.
-Print Assumptions C01_refuted_F06d.
+Print Assumptions C01_model_rejects_unbound_import.
 
 (* a file that does not compile is the statement Broken in the model: the class of the open findings F13b, F04c
    (F01e, F20a, F01g were of this class and are fixed; their documents are regression cases) *)
